@@ -24,6 +24,7 @@ META = {
     "required_counters": ["segmentations_run", "timeouts_injected", "head_cut_runs"],
     "assumptions": [],
 }
+META["claim"] += " " + 'Also: timeouts (single, double, pairs) before each of the first 16 bytes of frames with 16- and 64-bit lengths; the EAGAIN/SSLWantRead branch of the transport read at every byte position (spurious, and followed by a real gap); non-blocking sockets (timeout 0) with would-block retried; and, on real TLS over loopback, frames sharing a TLS record with the handshake response / a record ending inside a frame.'
 
 CALLS = [("recv", False), ("recv_data_frame", True), ("recv_data", False), ("recv_data_frame", False), ("recv_frame", False)]
 
